@@ -84,6 +84,10 @@ inline std::atomic<sched_fn> sched_callback{nullptr};
 using limit_read_fn = void (*)();
 inline std::atomic<limit_read_fn> limit_read_callback{nullptr};
 
+// H4 (test only): forget the unpacked IDNA tables so that the next call
+// performs first-use initialisation again (defined in ada_idna.cpp).
+void reset_idna_tables() noexcept;
+
 // H5: when set, url_pattern components are always compiled to a regular
 // expression instead of one of the literal/wildcard/empty shortcuts.
 inline std::atomic<bool> force_regexp_components{false};
